@@ -175,6 +175,7 @@ public:
 
 		std::lock_guard<Mutex> lockGuard(mutex);
 
+		node->counter = getNextCounter();
 		doAppend(node);
 
 		return Handle(node);
@@ -186,6 +187,7 @@ public:
 
 		std::lock_guard<Mutex> lockGuard(mutex);
 
+		node->counter = getNextCounter();
 		if(head) {
 			node->next = head;
 			head->previous = node;
@@ -212,6 +214,7 @@ public:
 
 			std::lock_guard<Mutex> lockGuard(mutex);
 
+			node->counter = getNextCounter();
 			// beforeNode can be a removed node that is kept alive by a running invocation
 			// (or by the lock() above); inserting before it would link into stale pointers.
 			if(beforeNode->counter != removedCounter) {
@@ -302,13 +305,13 @@ public:
 	void operator() (Args ...args) const
 	{
 		NodePtr node;
+		Counter counter;
 
 		{
 			std::lock_guard<Mutex> lockGuard(mutex);
 			node = head;
+			counter = currentCounter.load(std::memory_order_acquire);
 		}
-
-		const Counter counter = currentCounter.load(std::memory_order_acquire);
 
 		while(node) {
 			EVENTPP_VERIF_POINT("callbacklist.traverse.unlocked-counter", this);
@@ -332,13 +335,13 @@ private:
 	bool doForEachIf(F && f) const
 	{
 		NodePtr node;
+		Counter counter;
 
 		{
 			std::lock_guard<Mutex> lockGuard(mutex);
 			node = head;
+			counter = currentCounter.load(std::memory_order_acquire);
 		}
-
-		const Counter counter = currentCounter.load(std::memory_order_acquire);
 
 		while(node) {
 			EVENTPP_VERIF_POINT("callbacklist.traverse.unlocked-counter", this);
@@ -402,7 +405,9 @@ private:
 	
 	NodePtr doAllocateNode(const Callback & callback)
 	{
-		return std::make_shared<Node>(callback, getNextCounter());
+		// The counter is assigned by the caller when the node is linked, under the mutex,
+		// so that a wrap-around of the counter can't happen between the two.
+		return std::make_shared<Node>(callback, removedCounter);
 	}
 	
 	void doFreeNode(NodePtr & node)
@@ -443,18 +448,16 @@ private:
 		node.reset();
 	}
 
+	// The caller must hold the mutex (or own the list exclusively, as in the copy constructor)
 	Counter getNextCounter()
 	{
 		Counter result = ++currentCounter;;
 		if(result == 0) { // overflow, let's reset all nodes' counters.
-			{
-				std::lock_guard<Mutex> lockGuard(mutex);
-				NodePtr node = head;
-				while(node) {
-					EVENTPP_VERIF_POINT("callbacklist.counter-overflow.mid", this);
-					node->counter = 1;
-					node = node->next;
-				}
+			NodePtr node = head;
+			while(node) {
+				EVENTPP_VERIF_POINT("callbacklist.counter-overflow.mid", this);
+				node->counter = 1;
+				node = node->next;
 			}
 			result = ++currentCounter;
 		}
